@@ -87,6 +87,13 @@ pub fn wl_c03(seed: u64, tier: &str) -> Vec<Vec<Value>> {
             }
         }
         sessions.push(ops);
+        // long lists through the slice helper and the joint loop (any internal blocking must see every pair)
+        for len in [64usize, 65, 130].iter() {
+            let a: Vec<i64> = (0..*len).map(|i| 1 + (i % 5) as i64).collect();
+            let b: Vec<i64> = (0..*len).map(|i| if i % 3 == 0 { -2 } else { 1 + (i % 2) as i64 }).collect();
+            sessions.push(vec![json!({"op": "pairl", "fn": "pmulti", "as": a, "bs": b, "cls": format!("long-list-{}", len)}),
+                               json!({"op": "pairl", "fn": "miller", "as": a, "bs": b, "plain": true, "cls": format!("long-list-{}", len)})]);
+        }
     }
     // adjacency on ONE thread: the same pair (P, Q) under every combination of multipliers whose images
     // share an abscissa (-1), an ordinate (lambda, lambda^2) or both with P resp. Q - whatever a routine
@@ -183,6 +190,17 @@ pub fn wl_c11(seed: u64, tier: &str) -> Vec<Vec<Value>> {
         lists.push((rep.clone(), other.to_vec()));          // repeated G1 values
         lists.push((rep.clone(), rep.iter().rev().cloned().collect())); // both sides
         lists.push((other[..4].to_vec(), rep[..4].to_vec()));
+    }
+    // runs of the SAME pair (both components), of every length 2..5, alone and inside a list
+    for run in 2..=5usize {
+        lists.push((vec![3; run], vec![5; run]));
+        let mut a = vec![2i64, -1];
+        let mut b = vec![1i64, 3];
+        a.extend(vec![3; run]);
+        b.extend(vec![-2; run]);
+        a.push(1);
+        b.push(1);
+        lists.push((a, b));
     }
     // explicit cancellations: sum a_i b_i = 0
     lists.push((vec![1, -1], vec![2, 2]));
@@ -305,6 +323,33 @@ pub fn wl_c12(seed: u64, tier: &str) -> Vec<Vec<Value>> {
     }
     for (f, cls) in direct {
         sessions.push(vec![json!({"op": "finalexp", "f": f, "cls": cls})]);
+    }
+    // adjacency on one thread: an argument, then values derived from it the way the routine itself derives
+    // them (its easy part, its result, its unitary quotient), then the argument again
+    {
+        use ff::Field;
+        use pairing::bls12_381::{Bls12, Fq12};
+        use pairing::Engine;
+        for _ in 0..(if thorough { 3 } else { 1 }) {
+            let f = Fq12::from_j(&rand_f12(&mut r, &fq));
+            let mut u = f;
+            u.conjugate();
+            u.mul_assign(&f.inverse().unwrap());          // f^(q^6 - 1)
+            let mut easy = u;
+            easy.frobenius_map(2);
+            easy.mul_assign(&u);                           // f^((q^6 - 1)(q^2 + 1))
+            let fe = Bls12::final_exponentiation(&f).unwrap();
+            let seq = vec![f, easy, f, u, fe, easy, f];
+            let ops: Vec<Value> = seq.iter().map(|x| json!({"op": "finalexp", "f": x.to_j(), "cheap": true, "cls": "adjacent-derived"})).collect();
+            let mut ops2 = ops.clone();
+            // relations that pin the values down: FE(easy) = FE(f)^((q^6-1)(q^2+1)) is checked through
+            // multiplicativity against the individually validated arguments
+            ops2.push(json!({"op": "ferel", "f": f.to_j(), "g": easy.to_j(), "cls": "adjacent-derived"}));
+            ops2.push(json!({"op": "ferel", "f": easy.to_j(), "g": u.to_j(), "cls": "adjacent-derived"}));
+            sessions.push(ops2);
+            sessions.push(vec![json!({"op": "finalexp", "f": f.to_j(), "cheap": true, "cls": "adjacent-derived"}),
+                               json!({"op": "finalexp", "f": easy.to_j(), "cls": "adjacent-derived-direct"})]);
+        }
     }
     // g^(q^k) / g for k = 1, 2, 3 (norm one down to Fq, Fq2, Fq4 resp. - unitary at one level only), and
     // unit-circle elements of the subfields
